@@ -110,6 +110,8 @@ type tstats struct {
 	MaxAlloc uint64 `json:"max_alloc_bytes"`
 	MaxCPU   int64  `json:"max_cpu_us"`
 	WallMs   int64  `json:"child_wall_ms"`
+	CPUMs    int64  `json:"calls_cpu_ms"`
+	cpuUs    int64
 	errCls   map[string]struct{}
 }
 
@@ -231,7 +233,11 @@ func Run(r *ev.Run) {
 		go func() {
 			defer wg.Done()
 			for j := range ch {
+				t0 := time.Now()
 				m.runChunk(j.t, j.chunk, j.n)
+				if os.Getenv("VERIF_C14_VERBOSE") != "" {
+					fmt.Fprintf(os.Stderr, "c14: %-45s chunk %d n=%d %.1fs\n", j.t.name, j.chunk, j.n, time.Since(t0).Seconds())
+				}
 			}
 		}()
 	}
@@ -570,6 +576,11 @@ func (m *monitor) consume(t *target, chunk int, ins []input, jp jparsed) jlast {
 		}
 		if rec.cpu > s.MaxCPU {
 			s.MaxCPU = rec.cpu
+		}
+		s.cpuUs += rec.cpu
+		s.CPUMs = s.cpuUs / 1000
+		if slow := intEnv("VERIF_C14_SLOW_MS", 0); slow > 0 && rec.cpu > int64(slow)*1000 {
+			fmt.Fprintf(os.Stderr, "c14-slow: %s idx=%d cpu=%dms alloc=%d class=%s detail=%s len=%d\n", t.name, rec.idx, rec.cpu/1000, rec.alloc, in.class, in.detail, len(in.data))
 		}
 		switch rec.kind {
 		case 'o':
